@@ -12,6 +12,14 @@ for f in kasumi_f8 kasumi_f9 snow3g_test_f8_vectors snow3g_test_f9_vectors zuc_e
 done
 cp ref/admit/selftest_wireless.cc ref/wireless.cc ref/wireless.h ref/prims.h "$T/"
 (cd "$T" && g++ -std=c++17 -O1 -w -I. selftest_wireless.cc wireless.cc *.o -o selftest && ./selftest)
+# SNOW-V, SNOW-V-AEAD and PON references against the paper's / the kat-app's vectors
+T3=$(mktemp -d /dev/shm/admit3.XXXXXX)
+mkdir -p "$T3/vectors"
+cp "$R"/test/include/cipher_test.h "$R"/test/include/aead_test.h "$T3/vectors/"
+cp "$R"/test/kat-app/snow_v_test.json.c "$R"/test/kat-app/snow_v_aead.json.c "$T3/vectors/"
+cp ref/admit/pon_vectors.h "$T3/vectors/"
+cp ref/admit/selftest_snowv_pon.cc ref/snowv_pon.cc ref/snowv_pon.h "$T3/"
+(cd "$T3" && g++ -std=c++17 -O1 -w -I. selftest_snowv_pon.cc snowv_pon.cc -lcrypto -o selftest && ./selftest | tail -4); rc3=$?; rm -rf "$T3"; [ $rc3 = 0 ] || exit $rc3
 # SM3 compression function used for the HMAC-SM3 pad states (C11)
 T2=$(mktemp -d /dev/shm/admit2.XXXXXX)
 cat > "$T2/t.cc" <<'EOT'
